@@ -58,24 +58,59 @@ def _subterms(t, acc):
     return acc
 
 
+def _contains(t, target, memo):
+    from sa.lin import S
+    if isinstance(t, S):
+        t = t.t
+    if not isinstance(t, tuple):
+        return False
+    k = id(t)
+    r = memo.get(k)
+    if r is not None:
+        return r
+    if t is target or (len(t) == len(target) and t[0] == target[0] and t == target):
+        memo[k] = True
+        return True
+    r = False
+    for x in t:
+        if isinstance(x, (tuple, S)) and _contains(x, target, memo):
+            r = True
+            break
+    memo[k] = r
+    return r
+
+
 def mentions(st, term):
+    memo = {}
     for l in st.cons.ges:
         for k in l.co:
-            if term in _subterms(k, set()):
+            if _contains(k, term, memo):
                 return True
     return False
 
 
-def rest_consumption(W, qname, args, kwargs=None, state=None, exempt=()):
+def rest_consumption(W, qname, args, kwargs=None, state=None, exempt=(), watch=()):
     """-> (results, interp) ; results = list of dicts {site, reader, ok, why}"""
     from sa.values import VBytes, VTuple
     from sa.lin import Lin
-    it = W.interp()
-    it.return_merge_limit = 64
+    from sa.config import default_policy
+
+    def policy(f):
+        # only the DER layer (and the function itself) is analysed in depth; everything else
+        # is irrelevant for where the remainders go and is summarised
+        if f.qname == qname or f.module in ("der", "_compat"):
+            return "inline"
+        if f.module == "curves" and f.qual == "find_curve":
+            return "inline"
+        return "summary"
+    it = W.interp(policy=policy)
     it.entry_merge_limit = None
+    it.partition_cap = 400
     readers = der_readers(W.p)
     for r in readers:
         it.watch_results[r] = []
+    for w in watch:
+        it.watch_results.setdefault(w, [])
     it.watch_returns[qname] = []
     rets, raises = it.analyse(qname, args, kwargs or {}, state=state)
     finals = it.watch_returns[qname]
@@ -100,9 +135,27 @@ def rest_consumption(W, qname, args, kwargs=None, state=None, exempt=()):
             t = rest.t
             if t in consumed_terms:
                 continue
-            on_path = [fs for _v, fs in finals if mentions(fs, t)]
+            # a final state lies on a path through this call result iff it carries every
+            # constraint of the state right after the call (the entry frame only accumulates)
+            hs = set(l.h() for l in s.cons.ges)
+            on_path = [fs for _v, fs in finals if hs <= fs.cons._hset()]
             for fs in on_path:
                 if not fs.proves_eq(Lin.sym(("len", t))):
                     ent["ok"] = False
                     ent["why"] = "remainder of `%s` is neither passed to another reader nor proven empty at a normal return" % site[2][:70]
     return list(out.values()), it, raises
+
+
+def proved_equal(st, ta, tb):
+    """the state records that the values identified by terms ta and tb compared equal
+    (through term identity, an eq fact, or a true __eq__ / false __ne__ call)"""
+    if ta == tb:
+        return True
+    for x, y in ((ta, tb), (tb, ta)):
+        if ("eqterm", y, True) in st.facts(x):
+            return True
+        if ("truthy", True) in st.facts(("call", x, "__eq__", y)):
+            return True
+        if ("truthy", False) in st.facts(("call", x, "__ne__", y)):
+            return True
+    return False
